@@ -55,6 +55,15 @@ class HumanMessageSerializer:
         cur_block = None
         msg = None
         lines = [x.strip() for x in string.split("\n") if x.strip()]
+        # Packed values are serialized once all blocks are complete, the packer
+        # may need fields that come later in the block (ObjectUpdate's State needs PCode)
+        pending_packed = []
+
+        def _flush_packed():
+            for block, name, serializer, val in pending_packed:
+                block[name] = serializer.serialize(block, val)
+            pending_packed.clear()
+
         while lines:
             line = lines.pop(0)
             # Ignore comment / blank lines
@@ -135,9 +144,12 @@ class HumanMessageSerializer:
                     serializer = se.SUBFIELD_SERIALIZERS.get(ser_key)
                     if not serializer:
                         raise KeyError(f"No subfield serializer for {ser_key!r}")
-                    var_val = serializer.serialize(cur_block, var_val)
+                    pending_packed.append((cur_block, var_name, serializer, var_val))
+                    # placeholder keeps the field order
+                    var_val = None
 
                 cur_block[var_name] = var_val
+        _flush_packed()
         return msg
 
     @classmethod
